@@ -1,4 +1,5 @@
 """shared stress oracle for the lane properties C01-C05 (harness/c01_lanes.c): each scenario runs in its own process"""
+import re
 import common
 
 SCEN = {
@@ -29,7 +30,11 @@ def run(ctx, pid):
             if r.returncode == 124:
                 # a wall-clock limit is not a verdict (the client has its own progress watchdog): once more, alone, with a generous limit
                 r = common.run([exe, str(seed), sc, str(pm), str(scale)], timeout=3000)
-            out = r.stdout.split("\n")
+            # FAIL lines of different threads can land on one output line: cut at every "FAIL Cnn " marker
+            out = []
+            for l0 in r.stdout.split("\n"):
+                parts = re.split(r"(?=FAIL C\d\d )", l0)
+                out += [x for x in parts if x]
             for l in out:
                 if l.startswith("OK "):
                     ok_lines.append(l)
